@@ -15,6 +15,10 @@ DEFAULTS = ['1', "'s'", 'None', '(1, 2)', 'a.b', '-1', '[]', 'x or y', "'\\x1f'"
             '[i * 1000000 for i in range(3) if i % 7 == 3 or i % 11 == 5 or i % 13 == 7 or i > 100000000000]',
             'x < y < 100000000000000000 < 200000000000000000 < 300000000000000000 < 400000000000000000000',
             "f'x\\n{y}'", "f'{x!r:>10}\\t{{}}'", "'\\udc80\\n'", "'can\\'t \\udcff'", "'back\\\\slash \\udc80'",
+            # an operator expression that is itself subscripted / called / an attribute base; re.compile with keyword arguments
+            '(xs or ys)[0]', '(xs + ys)[1:2]', "{'k': (xs + ys)[0] * 2}", '(xs if x else ys)[0]', '(xs or ys).__len__()', '(len or abs)(xs)', '(-x).real', '(not x).real',
+            't.Dict[(str, int)]', '(xs * 2)[x or y]',
+            "re.compile('a+b', flags=re.I)", "re.compile(flags=re.S | re.X, pattern='c[0-9]')", "re.compile('a.b', re.S)",
             # known findings (recognised by their specific witness, see _check)
             "'non\xa0breaking'", '(1,)', '1e999']
 ANNS = ['int', "'str'", 'List[int]', 'None', 'a.B', "Literal['r', 'w']", "t.Literal['r']", "typing_extensions.Literal['x y']",
@@ -113,7 +117,7 @@ def _cases(tier, seed):
 def _sig_of_source(src, in_class=False):
     ns = {}
     pre = ('from typing import List, overload, Literal\nimport typing\nimport typing as t\nimport typing_extensions\nimport re\n'
-           'class a:\n    class B: pass\n    b = 0\nx = y = 0\n')
+           'class a:\n    class B: pass\n    b = 0\nx = y = 0\nxs = ys = [1, 2, 3]\n')
     exec(pre + src, ns)
     if in_class:
         f = ns['K'].__dict__['f']
